@@ -352,13 +352,24 @@ pub fn run() -> Report {
                     _ => vec![0, 0, 0, 0, 0, 0, 0, 1],
                 });
             }
-            let spec = RunSpec::new(c.coin, "csvdump").verify(c.verify).range(start, None);
-            let r = match wk.world_run(&world, &spec) {
-                Ok(r) => r,
-                Err(m) => {
-                    acc.machinery(m);
-                    return;
+            let mut spec = RunSpec::new(c.coin, "csvdump").verify(c.verify).range(start, None);
+            // options that have nothing to do with the content of the dump: every third case at another verbosity
+            spec.verbosity = [0u8, 0, 3][i % 3];
+            if let Err(m) = wk.materialise(&world) {
+                acc.machinery(m);
+                return;
+            }
+            // every seventh case starts from a dump folder with the long *.csv.tmp leftovers of an aborted earlier dump
+            let r = if i % 7 == 3 {
+                wk.fresh_dump();
+                let junk: String = (0..300).map(|k| format!("{:064x};{};{};{};leftover\n", k, k, k, k)).collect();
+                for n in ["blocks.csv.tmp", "transactions.csv.tmp", "tx_in.csv.tmp", "tx_out.csv.tmp"] {
+                    std::fs::write(wk.dump().join(n), &junk).unwrap();
                 }
+                acc.count("dump-folder-with-leftover-tmp-files", 1);
+                wk.run_keep(&spec)
+            } else {
+                wk.run(&spec)
             };
             acc.states += 1;
             acc.transitions += 1;
